@@ -317,6 +317,17 @@ fn section_constructors(ctx: &mut Ctx) {
     let s = "constructors";
     let mut probes: Vec<usize> = (0..=300).collect();
     probes.extend([usize::MAX, usize::MAX - 1, usize::MAX / 2, 1 << 8, 1 << 16, 1 << 32, (1 << 32) + 3, 1 << 63]);
+    // every 2^k + e (k = 9..=63, |e| <= 9) and its complement from the top
+    for k in 9..=63u32 {
+        for e in -9i128..=9 {
+            if let Ok(v) = usize::try_from((1i128 << k) + e) {
+                probes.push(v);
+                probes.push(usize::MAX - v);
+            }
+        }
+    }
+    probes.sort();
+    probes.dedup();
     for &i in &probes {
         ctx.states += 1;
         macro_rules! probe {
